@@ -27,6 +27,20 @@ def jd(x):
     return json.dumps(x, sort_keys=True, default=str)
 
 
+class DupWatch(object):
+    """Notices the moment the engine offers an action that is already in flight (known finding R1 makes it
+    offer a join twice): from then on the harness would hold two actions for one execution record."""
+
+    def __init__(self):
+        self.dup = False
+
+    def __call__(self, drv, rec):
+        for o in rec["offers"]:
+            for it in o["items"] or [None]:
+                if drv.inflight.count([o["id"], o["route"], it]) > 1:
+                    self.dup = True
+
+
 def enrich(v, observers, defn=None):
     """Attach the model-detected trigger facts to a violation (known-finding matchers read them)."""
     if isinstance(v.detail, dict):
